@@ -33,7 +33,7 @@ func (c Case) wire() []byte {
 var prop = ev.Register(&ev.Prop[Case]{
 	ID:   "C04",
 	Name: "framing",
-	Rule: "bodies assembled by the reference encoder from (code, flags, vendor, declared length, payload) records: fixed-width codes with payloads of every length 0..40, Address payloads of every family and length, payloads that are themselves encoded AVPs, nested to depth 4, declared lengths overridden with boundary values; non-trivial = some container holds an AVP whose payload length differs from its type's natural width (or an Address / smuggling payload) followed by a further AVP; distinct by hash of the wire image + dictionary",
+	Rule: "bodies assembled by the reference encoder from (code, flags, vendor, declared length, payload) records: fixed-width codes with payloads of every length 0..40, Address payloads of every family and length, payloads that are themselves encoded AVPs, nested to depth 4, declared lengths overridden with boundary values, 1 in 600 (quick) / 150 (thorough) AVPs at depth <= 2 with a payload of 64 KiB .. 16 MiB (sizes around powers of two); non-trivial = some container holds an AVP whose payload length differs from its type's natural width (or an Address / smuggling payload) followed by a further AVP; distinct by hash of the wire image + dictionary",
 	Gen:  genCase,
 	Run:  runCase,
 	Classify: func(c Case) (bool, []string) {
@@ -62,6 +62,12 @@ var prop = ev.Register(&ev.Prop[Case]{
 		if st.vflag {
 			cl = append(cl, "v-flag")
 		}
+		if st.huge {
+			cl = append(cl, "avp>=64KiB")
+		}
+		if st.huge1M {
+			cl = append(cl, "avp>=1MiB")
+		}
 		return st.oddFollowed, cl
 	},
 	Hash: func(c Case) uint64 { return ev.HashBytes(append(c.wire(), c.Dict.Name...)) },
@@ -69,6 +75,7 @@ var prop = ev.Register(&ev.Prop[Case]{
 
 type stats struct {
 	oddFollowed, override, smuggle, addr, vflag bool
+	huge, huge1M                                bool
 	maxDepth                                    int
 }
 
@@ -83,6 +90,12 @@ func classifyNodes(cat *gen.Catalog, app uint32, nodes []*refcodec.Node, depth i
 			st.vflag = true
 		}
 		typ := cat.Resolve(app, n.Code, v)
+		if n.Fill > 0 {
+			st.huge = true
+			if n.HeaderSize()+len(n.Payload)+n.Fill >= 1<<20 {
+				st.huge1M = true
+			}
+		}
 		if n.Declared != nil {
 			st.override = true
 		}
@@ -160,9 +173,25 @@ func smallAVPBytes(t *rapid.T) []byte {
 	return b
 }
 
+// hugeSizes: payload sizes around the powers of two above 64 KiB up to what the 24-bit length
+// fields of the AVP and of the message can still express.
+var hugeSizes = []int{1<<16 - 8, 1 << 16, 1<<17 + 1, 1<<20 - 12, 1<<20 - 8, 1<<20 - 7, 1 << 20, 1<<20 + 5, 1<<21 - 8, 3 << 20, 1<<22 + 2, 1<<23 - 8, 1<<23 + 64, 1<<24 - 200}
+
 func genNode(t *rapid.T, cat *gen.Catalog, app uint32, depth int) *refcodec.Node {
 	var n *refcodec.Node
 	k := rapid.IntRange(0, 99).Draw(t, "kind")
+	if depth <= 2 && rapid.IntRange(0, ev.Pick(599, 149)).Draw(t, "huge") == 0 { // a payload of 64 KiB .. 16 MiB
+		if rapid.Bool().Draw(t, "huge-undefined") {
+			n = &refcodec.Node{Code: 3000000 + rapid.Uint32Range(0, 50).Draw(t, "ucode"), Flags: 0x40}
+		} else if e, ok := pickEntry(t, cat, app, []string{gen.TOctetString, gen.TUTF8String}); ok {
+			n = nodeFor(t, e)
+		}
+		if n != nil {
+			n.Payload = rapid.SliceOfN(rapid.Byte(), 0, 12).Draw(t, "huge-head")
+			n.Fill = rapid.SampledFrom(hugeSizes).Draw(t, "huge-size")
+			return n
+		}
+	}
 	switch {
 	case k < 40: // fixed-width type with a payload of any length
 		if e, ok := pickEntry(t, cat, app, fixedTypes); ok {
